@@ -1893,17 +1893,18 @@ int XMLDateTime::fillYearString(XMLCh*& ptr, int value) const
         negativeYear = 1;
     }
     XMLSize_t i;
-    //append leading zeros
-    if(actualLen+negativeYear < 4)
-        for (i = 0; i < 4 - actualLen+negativeYear; i++)
+    //append leading zeros: the year has at least four digits, not counting the sign
+    const XMLSize_t digits = actualLen - negativeYear;
+    if(digits < 4)
+        for (i = 0; i < 4 - digits; i++)
             *ptr++ = chDigit_0;
 
     for (i = negativeYear; i < actualLen; i++)
         *ptr++ = strBuffer[i];
 
-    if(actualLen > 4)
-        return (int)actualLen-4;
-    return 0;
+    // tell the caller how many characters beyond the four it reserved were written
+    const XMLSize_t written = negativeYear + (digits < 4 ? 4 : digits);
+    return (int)(written - 4);
 }
 
 /***
